@@ -427,11 +427,38 @@ func runCheck(args []string) int {
 			name = d[:i]
 		}
 		p := filepath.Join(replayDir, safeName.ReplaceAllString(name, "_")+"_contract_applies.json")
-		js, _ := json.MarshalIndent(map[string]interface{}{"property": id, "obligation": name + "/contract/applies", "class": "contract",
+		rec := map[string]interface{}{"property": id, "obligation": name + "/contract/applies", "class": "contract",
 			"description":     "the contract of this function no longer applies to the code in the working tree, so none of its obligations can be generated",
-			"verifier_output": d}, "", " ")
+			"verifier_output": d, "reproduced": false}
+		js, _ := json.MarshalIndent(rec, "", " ")
 		os.WriteFile(p, js, 0o644)
-		lines = append(lines, fmt.Sprintf("VIOLATION property=%s replay=%s no-failing-input-found", id, p))
+		// the function's replay driver (if any) looks for an input on which the changed code misbehaves
+		suffix := " no-failing-input-found"
+		var drv *ReplayDriver
+		best := -1
+		for k, dv := range cfg.Replay {
+			if strings.HasPrefix(name, k) && len(k) > best {
+				dd := dv
+				drv, best = &dd, len(k)
+			}
+		}
+		if drv != nil {
+			raceFlag = drv.Race
+			_, text := runGoTest(drv.Pkg, drv.File, drv.Test, p, 1, 240)
+			raceFlag = false
+			rec["replay_output"] = tail(text, 4000)
+			for _, l := range strings.Split(text, "\n") {
+				if strings.Contains(l, "REPRODUCED") {
+					rec["reproduced"] = true
+					rec["failing_input"] = strings.TrimSpace(l)
+					suffix = ""
+					break
+				}
+			}
+			js, _ = json.MarshalIndent(rec, "", " ")
+			os.WriteFile(p, js, 0o644)
+		}
+		lines = append(lines, fmt.Sprintf("VIOLATION property=%s replay=%s%s", id, p, suffix))
 		violations++
 		exit = 1
 	}
